@@ -51,6 +51,7 @@ type interpreter struct {
 	tt     *termTable
 	solver *solver
 	sched  *sched
+	test   *testRun // selftest only: state of the repository test being executed
 	path   *pathState
 	opts   Options
 	funcs  map[*ssa.Function]bool
